@@ -69,6 +69,9 @@ func genC08(t *rapid.T) *FileCase {
 			default:
 				en.Kind = "table"
 				nr := rapid.IntRange(0, 5).Draw(t, "nrows")
+				if rapid.IntRange(0, 7).Draw(t, "longtable") == 0 {
+					nr = rapid.IntRange(10, 13).Draw(t, "nrowslong") // inline rows with two-digit indices
+				}
 				for r := 0; r < nr; r++ {
 					row := &MSRow{Var: rapid.SampledFrom(c08VarToks).Draw(t, "rowvar"), Val: rapid.SampledFrom(c08ValToks).Draw(t, "rowval")}
 					if rapid.Bool().Draw(t, "rowinline") {
